@@ -47,15 +47,18 @@ Proof.
 Qed.
 
 Lemma NoDup_app_l {A} (l1 l2 : list A) : NoDup (l1 ++ l2) -> NoDup l1.
-Proof. induction l1; simpl; intros H; [constructor|]. inversion H; subst. constructor; auto. rewrite in_app_iff in *. tauto. Qed.
+Proof.
+  induction l1; simpl; intros H; [constructor|]. inversion H as [|? ? Hn Hd]; subst.
+  constructor; auto. rewrite in_app_iff in Hn. tauto.
+Qed.
 
 Lemma NoDup_app_r {A} (l1 l2 : list A) : NoDup (l1 ++ l2) -> NoDup l2.
 Proof. induction l1; simpl; intros H; auto. inversion H; auto. Qed.
 
 Lemma NoDup_app_disj {A} (l1 l2 : list A) x : NoDup (l1 ++ l2) -> In x l1 -> In x l2 -> False.
 Proof.
-  induction l1; simpl; intros H H1 H2; [tauto|]. inversion H; subst. destruct H1.
-  - subst. apply H3. apply in_or_app. auto.
+  induction l1; simpl; intros H H1 H2; [tauto|]. inversion H as [|? ? Hn Hd]; subst. destruct H1.
+  - subst. apply Hn. apply in_or_app. auto.
   - auto.
 Qed.
 
@@ -67,7 +70,7 @@ Lemma indexed_app {A} i (l1 l2 : list A) :
 Proof.
   revert i. induction l1; intros i; simpl.
   - rewrite Nat.add_0_r. reflexivity.
-  - rewrite IHl1. repeat f_equal. lia.
+  - rewrite IHl1. replace (S i + length l1) with (i + S (length l1)) by lia. reflexivity.
 Qed.
 
 Lemma indexed_range {A} i (l : list A) j x : In (j, x) (indexed i l) -> i <= j < i + length l /\ In x l.
@@ -96,7 +99,7 @@ Qed.
 Lemma indexed_inj i (l : list name) j1 j2 x :
   NoDup l -> In (j1, x) (indexed i l) -> In (j2, x) (indexed i l) -> j1 = j2.
 Proof.
-  revert i. induction l; intros i ND; simpl; [tauto|]. inversion ND; subst. intros [H1|H1] [H2|H2].
+  revert i. induction l; intros i ND; simpl; [tauto|]. inversion ND as [|? ? Hn Hd]; subst. intros [H1|H1] [H2|H2].
   - congruence.
   - inversion H1; subst. apply indexed_range in H2. tauto.
   - inversion H2; subst. apply indexed_range in H1. tauto.
@@ -154,9 +157,9 @@ Lemma dget_dupdate k d o :
   NoDup (keys o) -> dget k (dupdate d o) = match dget k o with Some v => Some v | None => dget k d end.
 Proof.
   revert d. induction o as [|[k0 v0] o IH]; intros d H; simpl; auto.
-  unfold dupdate in *. simpl. inversion H; subst. rewrite IH; auto. rewrite dget_dset.
+  unfold dupdate in *. simpl. inversion H as [|? ? Hn Hd]; subst. rewrite IH; auto. rewrite dget_dset.
   destruct (k =? k0) eqn:E; auto.
-  apply Nat.eqb_eq in E. subst. apply dget_None in H2. rewrite H2. reflexivity.
+  apply Nat.eqb_eq in E. subst. apply dget_None in Hn. rewrite Hn. reflexivity.
 Qed.
 
 (* dict(...) of constant-valued items, duplicates allowed *)
@@ -196,7 +199,7 @@ Proof. induction l; simpl; auto. destruct (f a); simpl; rewrite ?IHl; auto. Qed.
 
 Lemma NoDup_filter {A} (f : A -> bool) l : NoDup l -> NoDup (filter f l).
 Proof.
-  induction l; simpl; intros H; auto. inversion H; subst. destruct (f a); auto.
+  induction l; simpl; intros H; auto. inversion H as [|? ? Hn Hd]; subst. destruct (f a); auto.
   constructor; auto. rewrite filter_In. tauto.
 Qed.
 
@@ -206,4 +209,464 @@ Proof.
   revert i n. induction A; intros i n; simpl.
   - destruct n; reflexivity.
   - destruct n; simpl; auto. unfold keys in *. rewrite IHA. reflexivity.
+Qed.
+
+Lemma firstn_In {A} n (l : list A) x : In x (firstn n l) -> In x l.
+Proof. revert n. induction l; intros n; destruct n; simpl; try tauto. intros [H|H]; eauto. Qed.
+
+Lemma NoDup_firstn {A} n (l : list A) : NoDup l -> NoDup (firstn n l).
+Proof.
+  revert n. induction l; intros n H; destruct n; simpl; try constructor.
+  - inversion H as [|? ? Hn Hd]; subst. intros Hin. apply Hn. eapply firstn_In; eauto.
+  - inversion H; auto.
+Qed.
+
+Lemma dget_combine_pos (A : list name) i n j p :
+  NoDup A -> In (j, p) (indexed i A) ->
+  dget p (combine A (map Pos (seq i n))) = if j <? i + n then Some (Pos j) else None.
+Proof.
+  revert i n. induction A as [|a A IH]; intros i n ND H; simpl in H; [tauto|].
+  inversion ND as [|? ? Hn Hd]; subst. destruct n; simpl.
+  - destruct (j <? i + 0) eqn:E; auto. apply Nat.ltb_lt in E.
+    assert (i <= j) by (destruct H as [H|H]; [inversion H; lia | apply indexed_range in H; lia]). lia.
+  - destruct H as [H|H].
+    + inversion H; subst. rewrite Nat.eqb_refl. assert (j <? j + S n = true) as -> by (apply Nat.ltb_lt; lia). reflexivity.
+    + assert (p =? a = false) as ->.
+      { apply Nat.eqb_neq. intros ->. apply indexed_range in H. tauto. }
+      rewrite (IH (S i) n); auto. replace (S i + n) with (i + S n) by lia. reflexivity.
+Qed.
+
+Lemma dget_combine_notin (A : list name) i n p : ~ In p A -> dget p (combine A (map Pos (seq i n))) = None.
+Proof. intros H. apply dget_None. rewrite keys_combine_pos. intros Hin. apply H. eapply firstn_In; eauto. Qed.
+
+Lemma dget_indexed_map (f : nat -> name -> value) i l j p :
+  NoDup l -> In (j, p) (indexed i l) ->
+  dget p (map (fun jp => (snd jp, f (fst jp) (snd jp))) (indexed i l)) = Some (f j p).
+Proof.
+  revert i. induction l as [|a l IH]; intros i ND H; simpl in H; [tauto|].
+  inversion ND as [|? ? Hn Hd]; subst. simpl. destruct H as [H|H].
+  - inversion H; subst. rewrite Nat.eqb_refl. reflexivity.
+  - assert (p =? a = false) as ->.
+    { apply Nat.eqb_neq. intros ->. apply indexed_range in H. tauto. }
+    apply IH; auto.
+Qed.
+
+Lemma keys_indexed_map (f : nat -> name -> value) i l :
+  keys (map (fun jp => (snd jp, f (fst jp) (snd jp))) (indexed i l)) = l.
+Proof. revert i. induction l; intros i; simpl; auto. unfold keys in *. rewrite IHl. reflexivity. Qed.
+
+(* ---------------------------------------------------------------------------------- *)
+(* the closed-form description both binders are compared with *)
+
+Definition RefErr (s : sig) (c : shape) : Prop :=
+  (exists j p, In (j, p) (indexed 0 (param_names s)) /\ j < npos c /\ length (posonly s) <= j /\ In p (kws c))
+  \/ (kwargs s = None /\ exists k, In k (kws c) /\ ~ In k (pos_or_kw s ++ kwonly s))
+  \/ (length (param_names s) < npos c /\ varargs s = None)
+  \/ (exists j p, In (j, p) (indexed 0 (param_names s)) /\ npos c <= j
+                  /\ ~ (length (posonly s) <= j /\ In p (kws c)) /\ ~ In p (defaults s))
+  \/ (exists p, In p (kwonly s) /\ ~ In p (kws c) /\ ~ In p (defaults s)).
+
+Definition ref_val_pos (s : sig) (c : shape) (j : nat) (p : name) : value :=
+  if j <? npos c then Pos j
+  else if (length (posonly s) <=? j) && mem p (kws c) then Kw p else Default.
+
+Definition ref_val_kwo (c : shape) (p : name) : value := if mem p (kws c) then Kw p else Default.
+
+Definition ref_star (s : sig) (c : shape) : value :=
+  VarArgs (seq (length (param_names s)) (npos c - length (param_names s))).
+
+Definition ref_starstar (s : sig) (c : shape) : value :=
+  KwArgs (filter (fun k => negb (mem k (pos_or_kw s ++ kwonly s))) (kws c)).
+
+Definition ref_dict (s : sig) (c : shape) : dict :=
+  map (fun jp => (snd jp, ref_val_pos s c (fst jp) (snd jp))) (indexed 0 (param_names s))
+  ++ map (fun p => (p, ref_val_kwo c p)) (kwonly s)
+  ++ map (fun va => (va, ref_star s c)) (opt_list (varargs s))
+  ++ map (fun kn => (kn, ref_starstar s c)) (opt_list (kwargs s)).
+
+(* what wf_sig says about names *)
+Record names_ok (s : sig) : Prop := {
+  nd_A : NoDup (param_names s);
+  nd_K : NoDup (kwonly s);
+  nd_AK : forall p, In p (param_names s) -> In p (kwonly s) -> False;
+  nd_PQ : forall p, In p (posonly s) -> In p (pos_or_kw s) -> False;
+  nd_va : forall va, varargs s = Some va -> ~ In va (param_names s) /\ ~ In va (kwonly s);
+  nd_kn : forall kn, kwargs s = Some kn -> ~ In kn (param_names s) /\ ~ In kn (kwonly s) /\ varargs s <> Some kn }.
+
+Lemma wf_names s : NoDup (all_names s) -> names_ok s.
+Proof.
+  unfold all_names, param_names. intros H.
+  assert (H1 : NoDup ((posonly s ++ pos_or_kw s) ++ kwonly s ++ opt_list (varargs s) ++ opt_list (kwargs s)))
+    by (rewrite <- app_assoc; exact H).
+  assert (H2 : NoDup (kwonly s ++ opt_list (varargs s) ++ opt_list (kwargs s))) by (eapply NoDup_app_r; eauto).
+  assert (H3 : NoDup (opt_list (varargs s) ++ opt_list (kwargs s))) by (eapply NoDup_app_r; eauto).
+  constructor.
+  - eapply NoDup_app_l; eauto.
+  - eapply NoDup_app_l; eauto.
+  - intros p Ha Hk. eapply (NoDup_app_disj _ _ p H1); auto. apply in_or_app. auto.
+  - intros p Ha Hk. apply NoDup_app_l in H1. eapply (NoDup_app_disj _ _ p H1); auto.
+  - intros va E. rewrite E in *. simpl in *. split; intros Hin.
+    + eapply (NoDup_app_disj _ _ va H1); auto. apply in_or_app. right. simpl. auto.
+    + eapply (NoDup_app_disj _ _ va H2); auto. simpl. auto.
+  - intros kn E. rewrite E in *. simpl in *. repeat split; try intros Hin.
+    + eapply (NoDup_app_disj _ _ kn H1); auto. apply in_or_app. right. apply in_or_app. right. simpl. auto.
+    + eapply (NoDup_app_disj _ _ kn H2); auto. apply in_or_app. right. simpl. auto.
+    + rewrite Hin in H3. simpl in H3. inversion H3 as [|? ? Hn Hd]; subst. apply Hn. simpl. auto.
+Qed.
+
+Lemma pos_index_posonly s j p :
+  names_ok s -> In (j, p) (indexed 0 (param_names s)) -> (j < length (posonly s) <-> In p (posonly s)).
+Proof.
+  intros W H. unfold param_names in H. rewrite indexed_app in H. apply in_app_or in H. destruct H as [H|H].
+  - apply indexed_range in H. simpl in H. split; intros; [tauto|lia].
+  - apply indexed_range in H. simpl in H. split; intros H1; [lia|]. exfalso. eapply nd_PQ; eauto. tauto.
+Qed.
+
+Lemma In_A_indexed s p : In p (param_names s) -> exists j, In (j, p) (indexed 0 (param_names s)) /\ j < length (param_names s).
+Proof. intros H. destruct (indexed_In 0 _ _ H) as [j Hj]. exists j. split; auto. apply indexed_range in Hj. lia. Qed.
+
+Lemma ref_dict_pos s c j p :
+  names_ok s -> In (j, p) (indexed 0 (param_names s)) -> dget p (ref_dict s c) = Some (ref_val_pos s c j p).
+Proof.
+  intros W H. unfold ref_dict. rewrite dget_app.
+  rewrite (dget_indexed_map (ref_val_pos s c) 0 _ j p); auto. apply W.
+Qed.
+
+Lemma ref_dict_kwo s c p :
+  names_ok s -> In p (kwonly s) -> dget p (ref_dict s c) = Some (ref_val_kwo c p).
+Proof.
+  intros W H. unfold ref_dict. rewrite dget_app.
+  assert (dget p (map (fun jp => (snd jp, ref_val_pos s c (fst jp) (snd jp))) (indexed 0 (param_names s))) = None) as ->.
+  { apply dget_None. rewrite keys_indexed_map. intros Hin. eapply nd_AK; eauto. }
+  rewrite dget_app. rewrite dget_map_self. apply mem_In in H. rewrite H. reflexivity.
+Qed.
+
+Lemma ref_dict_va s c va :
+  names_ok s -> varargs s = Some va -> dget va (ref_dict s c) = Some (ref_star s c).
+Proof.
+  intros W E. destruct (nd_va s W va E) as [H1 H2]. unfold ref_dict. rewrite dget_app.
+  assert (dget va (map (fun jp => (snd jp, ref_val_pos s c (fst jp) (snd jp))) (indexed 0 (param_names s))) = None) as ->.
+  { apply dget_None. rewrite keys_indexed_map. auto. }
+  rewrite dget_app. rewrite dget_map_self. apply mem_nIn in H2. rewrite H2.
+  rewrite E. simpl. rewrite Nat.eqb_refl. reflexivity.
+Qed.
+
+Lemma ref_dict_kn s c kn :
+  names_ok s -> kwargs s = Some kn -> dget kn (ref_dict s c) = Some (ref_starstar s c).
+Proof.
+  intros W E. destruct (nd_kn s W kn E) as [H1 [H2 H3]]. unfold ref_dict. rewrite dget_app.
+  assert (dget kn (map (fun jp => (snd jp, ref_val_pos s c (fst jp) (snd jp))) (indexed 0 (param_names s))) = None) as ->.
+  { apply dget_None. rewrite keys_indexed_map. auto. }
+  rewrite dget_app. rewrite dget_map_self. apply mem_nIn in H2. rewrite H2.
+  rewrite dget_app. rewrite E. simpl. destruct (varargs s) as [va|] eqn:Ev; simpl.
+  - assert (kn =? va = false) as -> by (apply Nat.eqb_neq; intros ->; apply H3; reflexivity).
+    rewrite Nat.eqb_refl. reflexivity.
+  - rewrite Nat.eqb_refl. reflexivity.
+Qed.
+
+(* every parameter is described *)
+Lemma all_names_cases s p :
+  In p (all_names s) ->
+  In p (param_names s) \/ In p (kwonly s) \/ varargs s = Some p \/ kwargs s = Some p.
+Proof.
+  unfold all_names, param_names. rewrite !in_app_iff. intros [H|[H|[H|[H|H]]]]; auto.
+  - destruct (varargs s); simpl in H; [|tauto]. destruct H; [subst; auto|tauto].
+  - destruct (kwargs s); simpl in H; [|tauto]. destruct H; [subst; auto|tauto].
+Qed.
+
+Lemma skipn_seq' k i n : skipn k (seq i n) = seq (i + k) (n - k).
+Proof.
+  revert i n. induction k; intros i n; simpl.
+  - rewrite Nat.add_0_r, Nat.sub_0_r. reflexivity.
+  - destruct n; simpl; auto. rewrite IHk. replace (i + S k) with (S i + k) by lia. reflexivity.
+Qed.
+
+Lemma firstn_indexed {A} n i (l : list A) x :
+  In x (firstn n l) <-> exists j, j < i + n /\ In (j, x) (indexed i l).
+Proof.
+  revert n i. induction l as [|a l IH]; intros n i; simpl.
+  - destruct n; simpl; split; try tauto; intros [j [_ []]].
+  - destruct n; simpl.
+    + split; [tauto|]. intros [j [H1 [H2|H2]]].
+      * inversion H2; lia.
+      * apply indexed_range in H2. lia.
+    + rewrite (IH n (S i)). split.
+      * intros [H|[j [H1 H2]]]; [subst; exists i; split; [lia|auto] | exists j; split; [lia|auto]].
+      * intros [j [H1 [H2|H2]]]; [inversion H2; auto | right; exists j; split; [lia|auto]].
+Qed.
+
+(* ---------------------------------------------------------------------------------- *)
+(* pytype side *)
+
+Definition kwsd (c : shape) : dict := map (fun k => (k, Kw k)) (kws c).
+
+Lemma keys_kwsd c : keys (kwsd c) = kws c.
+Proof. unfold kwsd, keys. rewrite map_map. simpl. apply map_id. Qed.
+
+Lemma dmem_kwsd c k : dmem k (kwsd c) = mem k (kws c).
+Proof. unfold dmem, kwsd. rewrite dget_map_self. destruct (mem k (kws c)); reflexivity. Qed.
+
+Definition positional (s : sig) (c : shape) : dict := combine (param_names s) (map Pos (seq 0 (npos c))).
+
+Definition callargs2 (s : sig) (c : shape) : dict :=
+  dupdate (dupdate (dict_of (map (fun n => (n, Default)) (defaults s))) (positional s c))
+          (filter (fun kv => negb (mem (fst kv) (posonly s))) (kwsd c)).
+
+Lemma callargs2_get s c p :
+  NoDup (param_names s) -> NoDup (kws c) ->
+  dget p (callargs2 s c) =
+    if mem p (kws c) && negb (mem p (posonly s)) then Some (Kw p)
+    else match dget p (positional s c) with
+         | Some v => Some v
+         | None => if mem p (defaults s) then Some Default else None
+         end.
+Proof.
+  intros NA NK. unfold callargs2.
+  rewrite dget_dupdate.
+  2:{ unfold kwsd. rewrite (keys_filter_map (fun k => negb (mem k (posonly s))) Kw). apply NoDup_filter. exact NK. }
+  unfold kwsd. rewrite (dget_filter_map (fun k => negb (mem k (posonly s))) Kw).
+  destruct (mem p (kws c) && negb (mem p (posonly s))); auto.
+  rewrite dget_dupdate.
+  2:{ unfold positional. rewrite keys_combine_pos. apply NoDup_firstn. exact NA. }
+  destruct (dget p (positional s c)); auto.
+  unfold dict_of. rewrite dget_dupdate_const. simpl. reflexivity.
+Qed.
+
+Lemma callargs2_pos s c j p :
+  names_ok s -> NoDup (kws c) -> In (j, p) (indexed 0 (param_names s)) ->
+  dget p (callargs2 s c) =
+    if mem p (kws c) && (length (posonly s) <=? j) then Some (Kw p)
+    else if j <? npos c then Some (Pos j)
+    else if mem p (defaults s) then Some Default else None.
+Proof.
+  intros W NK H. rewrite callargs2_get; auto; [|apply W].
+  assert (negb (mem p (posonly s)) = (length (posonly s) <=? j)) as ->.
+  { pose proof (pos_index_posonly s j p W H) as Hi.
+    destruct (mem p (posonly s)) eqn:E; simpl; symmetry.
+    - apply mem_In in E. apply Nat.leb_gt. tauto.
+    - apply mem_nIn in E. apply Nat.leb_le.
+      destruct (Nat.lt_ge_cases j (length (posonly s))) as [L|L]; [exfalso; apply E; apply Hi; exact L | exact L]. }
+  destruct (mem p (kws c) && (length (posonly s) <=? j)); auto.
+  unfold positional. rewrite (dget_combine_pos _ 0 (npos c) j p); auto; [|apply W]. simpl.
+  destruct (j <? npos c); auto.
+Qed.
+
+Lemma callargs2_kwo s c p :
+  names_ok s -> NoDup (kws c) -> In p (kwonly s) ->
+  dget p (callargs2 s c) =
+    if mem p (kws c) then Some (Kw p) else if mem p (defaults s) then Some Default else None.
+Proof.
+  intros W NK H. rewrite callargs2_get; auto; [|apply W].
+  assert (~ In p (param_names s)) as HnA by (intros Hin; eapply nd_AK; eauto).
+  assert (mem p (posonly s) = false) as ->.
+  { apply mem_nIn. intros Hin. apply HnA. unfold param_names. apply in_or_app. auto. }
+  simpl. rewrite andb_true_r. destruct (mem p (kws c)); auto.
+  unfold positional. rewrite dget_combine_notin; auto.
+Qed.
+
+Lemma bind_py_fixed_unfold s c :
+  NoDup (param_names s) -> NoDup (kws c) ->
+  bind_py_fixed s c =
+  let dup := filter (fun key => negb (mem key (posonly s)) && mem key (kws c)) (firstn (npos c) (param_names s)) in
+  if nonempty dup then Err (EDuplicateKeyword dup) else
+  let extra_kws := filter (fun k => negb (mem k (param_names s ++ kwonly s))) (kws c) in
+  if nonempty extra_kws && negb (is_some (kwargs s)) then Err (EWrongKeywordArgs extra_kws) else
+  let posonly_kws := filter (fun k => mem k (posonly s)) (kws c) in
+  if nonempty posonly_kws && negb (is_some (kwargs s)) then Err (EWrongKeywordArgs posonly_kws) else
+  match find (fun key => negb (dmem key (callargs2 s c)))
+             (filter (fun n => negb (mem n (defaults s))) (param_names s) ++ kwonly s) with
+  | Some key => Err (EMissingParameter key)
+  | None =>
+    match (match varargs s with
+           | Some va => Some (dset va (VarArgs (skipn (length (param_names s)) (seq 0 (npos c)))) (callargs2 s c))
+           | None => if length (param_names s) <? npos c then None else Some (callargs2 s c)
+           end) with
+    | None => Err EWrongArgCount
+    | Some callargs =>
+      match kwargs s with
+      | Some kn => Ok (dset kn (KwArgs (filter (fun k => negb (mem k (pos_or_kw s ++ kwonly s))) (kws c))) callargs)
+      | None => Ok callargs
+      end
+    end
+  end.
+Proof.
+  intros NA NK. unfold bind_py_fixed, bind_py_gen.
+  rewrite (dict_of_id (map (fun k => (k, Kw k)) (kws c))) by (apply (eq_ind_r (@NoDup name) NK (keys_kwsd c))).
+  rewrite (dict_of_id (combine (param_names s) (map Pos (seq 0 (npos c)))))
+    by (rewrite keys_combine_pos; apply NoDup_firstn; exact NA).
+  rewrite keys_combine_pos. fold (kwsd c). rewrite keys_kwsd.
+  rewrite map_length, seq_length.
+  assert (filter (fun key => negb (mem key (posonly s)) && dmem key (kwsd c)) (firstn (npos c) (param_names s))
+          = filter (fun key => negb (mem key (posonly s)) && mem key (kws c)) (firstn (npos c) (param_names s))) as ->.
+  { apply filter_ext. intros a. rewrite dmem_kwsd. reflexivity. }
+  reflexivity.
+Qed.
+
+Lemma In_posonly_A s p : In p (posonly s) -> In p (param_names s).
+Proof. intros H. unfold param_names. apply in_or_app. auto. Qed.
+Lemma In_pkw_A s p : In p (pos_or_kw s) -> In p (param_names s).
+Proof. intros H. unfold param_names. apply in_or_app. auto. Qed.
+
+Theorem py_ref s c :
+  wf_sig s -> wf_shape c ->
+  match bind_py_fixed s c with
+  | Err _ => RefErr s c
+  | Ok d => ~ RefErr s c /\ forall p, In p (all_names s) -> dget p d = dget p (ref_dict s c)
+  end.
+Proof.
+  intros [WN WD] NK. unfold wf_shape in NK. pose proof (wf_names s WN) as W.
+  rewrite bind_py_fixed_unfold; auto; [|apply W]. cbv zeta. unfold RefErr.
+  rewrite !nonempty_filter.
+  (* 1. duplicate keyword *)
+  destruct (existsb (fun key => negb (mem key (posonly s)) && mem key (kws c)) (firstn (npos c) (param_names s))) eqn:E1.
+  { apply existsb_exists in E1. destruct E1 as [p [Hp Hc]]. apply andb_prop in Hc. destruct Hc as [Hc1 Hc2].
+    apply (firstn_indexed (npos c) 0) in Hp. destruct Hp as [j [Hj Hjp]].
+    left. exists j, p. repeat split; auto.
+    - apply negb_true_iff in Hc1. apply mem_nIn in Hc1.
+      pose proof (pos_index_posonly s j p W Hjp) as Hi.
+      destruct (Nat.lt_ge_cases j (length (posonly s))) as [L|L]; [exfalso; apply Hc1; apply Hi; exact L | exact L].
+    - apply mem_In. exact Hc2. }
+  assert (N1 : ~ (exists j p, In (j, p) (indexed 0 (param_names s)) /\ j < npos c /\ length (posonly s) <= j /\ In p (kws c))).
+  { intros [j [p [Hjp [Hj [Hnp Hk]]]]].
+    rewrite existsb_false in E1. specialize (E1 p).
+    assert (In p (firstn (npos c) (param_names s))) as Hf by (apply (firstn_indexed (npos c) 0); exists j; split; [lia|auto]).
+    specialize (E1 Hf). apply mem_In in Hk. rewrite Hk in E1. rewrite andb_true_r in E1.
+    apply negb_false_iff in E1. apply mem_In in E1. apply (pos_index_posonly s j p W Hjp) in E1. lia. }
+  (* 2. unknown keywords without **kwargs *)
+  destruct (existsb (fun k => negb (mem k (param_names s ++ kwonly s))) (kws c) && negb (is_some (kwargs s))) eqn:E2.
+  { apply andb_prop in E2. destruct E2 as [E2 E2k]. apply existsb_exists in E2. destruct E2 as [k [Hk Hc]].
+    right. left. split.
+    - destruct (kwargs s); simpl in E2k; [discriminate|reflexivity].
+    - exists k. split; auto. apply negb_true_iff in Hc. apply mem_nIn in Hc. intros Hin. apply Hc.
+      apply in_app_or in Hin. apply in_or_app. destruct Hin; [left; apply In_pkw_A; auto | right; auto]. }
+  (* 3. positional-only names as keywords without **kwargs *)
+  destruct (existsb (fun k => mem k (posonly s)) (kws c) && negb (is_some (kwargs s))) eqn:E3.
+  { apply andb_prop in E3. destruct E3 as [E3 E3k]. apply existsb_exists in E3. destruct E3 as [k [Hk Hc]].
+    right. left. split.
+    - destruct (kwargs s); simpl in E3k; [discriminate|reflexivity].
+    - exists k. split; auto. apply mem_In in Hc. intros Hin. apply in_app_or in Hin. destruct Hin as [Hin|Hin].
+      + eapply nd_PQ; eauto.
+      + eapply nd_AK; eauto. apply In_posonly_A; auto. }
+  assert (N2 : ~ (kwargs s = None /\ exists k, In k (kws c) /\ ~ In k (pos_or_kw s ++ kwonly s))).
+  { intros [Hkw [k [Hk Hn]]]. rewrite Hkw in E2, E3. simpl in E2, E3. rewrite andb_true_r in E2, E3.
+    rewrite existsb_false in E2, E3. specialize (E2 k Hk). specialize (E3 k Hk).
+    apply negb_false_iff in E2. apply mem_In in E2. apply mem_nIn in E3. apply Hn.
+    apply in_app_or in E2. apply in_or_app. destruct E2 as [E2|E2]; auto.
+    unfold param_names in E2. apply in_app_or in E2. destruct E2; [tauto|auto]. }
+  (* 4. missing parameters *)
+  destruct (find (fun key => negb (dmem key (callargs2 s c)))
+                 (filter (fun n => negb (mem n (defaults s))) (param_names s) ++ kwonly s)) as [key|] eqn:E4.
+  { apply find_some in E4. destruct E4 as [Hin Hm]. apply negb_true_iff in Hm. unfold dmem in Hm.
+    apply in_app_or in Hin. destruct Hin as [Hin|Hin].
+    - apply filter_In in Hin. destruct Hin as [HA HD]. apply negb_true_iff in HD. apply mem_nIn in HD.
+      destruct (In_A_indexed s key HA) as [j [Hjp Hj]].
+      rewrite (callargs2_pos s c j key W NK Hjp) in Hm.
+      right. right. right. left. exists j, key.
+      destruct (mem key (kws c) && (length (posonly s) <=? j)) eqn:Ek; [discriminate|].
+      destruct (j <? npos c) eqn:Ej; [discriminate|]. apply Nat.ltb_ge in Ej.
+      repeat split; auto. intros [Hl Hk]. apply mem_In in Hk. apply Nat.leb_le in Hl. rewrite Hk, Hl in Ek. discriminate.
+    - rewrite (callargs2_kwo s c key W NK Hin) in Hm.
+      right. right. right. right. exists key.
+      destruct (mem key (kws c)) eqn:Ek; [discriminate|]. destruct (mem key (defaults s)) eqn:Ed; [discriminate|].
+      apply mem_nIn in Ek, Ed. auto. }
+  assert (N4 : ~ (exists j p, In (j, p) (indexed 0 (param_names s)) /\ npos c <= j
+                  /\ ~ (length (posonly s) <= j /\ In p (kws c)) /\ ~ In p (defaults s))).
+  { intros [j [p [Hjp [Hj [Hnk Hd]]]]].
+    pose proof (find_none _ _ E4 p) as Hf.
+    assert (In p (filter (fun n => negb (mem n (defaults s))) (param_names s) ++ kwonly s)) as Hin.
+    { apply in_or_app. left. apply filter_In. split; [apply indexed_range in Hjp; tauto|].
+      apply negb_true_iff. apply mem_nIn. auto. }
+    specialize (Hf Hin). apply negb_false_iff in Hf. unfold dmem in Hf.
+    rewrite (callargs2_pos s c j p W NK Hjp) in Hf.
+    destruct (mem p (kws c) && (length (posonly s) <=? j)) eqn:Ek.
+    { apply andb_prop in Ek. destruct Ek as [Ek1 Ek2]. apply mem_In in Ek1. apply Nat.leb_le in Ek2. tauto. }
+    assert (j <? npos c = false) as Ej by (apply Nat.ltb_ge; lia). rewrite Ej in Hf.
+    apply mem_nIn in Hd. rewrite Hd in Hf. discriminate. }
+  assert (N5 : ~ (exists p, In p (kwonly s) /\ ~ In p (kws c) /\ ~ In p (defaults s))).
+  { intros [p [Hp [Hk Hd]]].
+    pose proof (find_none _ _ E4 p) as Hf.
+    assert (In p (filter (fun n => negb (mem n (defaults s))) (param_names s) ++ kwonly s)) as Hin
+      by (apply in_or_app; auto).
+    specialize (Hf Hin). apply negb_false_iff in Hf. unfold dmem in Hf.
+    rewrite (callargs2_kwo s c p W NK Hp) in Hf. apply mem_nIn in Hk, Hd. rewrite Hk, Hd in Hf. discriminate. }
+  (* values of the named parameters in callargs2 *)
+  assert (V1 : forall j p, In (j, p) (indexed 0 (param_names s)) ->
+               dget p (callargs2 s c) = Some (ref_val_pos s c j p)).
+  { intros j p Hjp. rewrite (callargs2_pos s c j p W NK Hjp). unfold ref_val_pos.
+    destruct (j <? npos c) eqn:Ej.
+    - destruct (mem p (kws c) && (length (posonly s) <=? j)) eqn:Ek; auto.
+      exfalso. apply N1. exists j, p. apply andb_prop in Ek. destruct Ek as [Ek1 Ek2].
+      apply mem_In in Ek1. apply Nat.leb_le in Ek2. apply Nat.ltb_lt in Ej. auto.
+    - rewrite (andb_comm (length (posonly s) <=? j)).
+      destruct (mem p (kws c) && (length (posonly s) <=? j)) eqn:Ek; auto.
+      destruct (mem p (defaults s)) eqn:Ed; auto.
+      exfalso. apply N4. exists j, p. apply Nat.ltb_ge in Ej. apply mem_nIn in Ed. repeat split; auto.
+      intros [Hl Hk]. apply mem_In in Hk. apply Nat.leb_le in Hl. rewrite Hk, Hl in Ek. discriminate. }
+  assert (V2 : forall p, In p (kwonly s) -> dget p (callargs2 s c) = Some (ref_val_kwo c p)).
+  { intros p Hp. rewrite (callargs2_kwo s c p W NK Hp). unfold ref_val_kwo.
+    destruct (mem p (kws c)) eqn:Ek; auto. destruct (mem p (defaults s)) eqn:Ed; auto.
+    exfalso. apply N5. exists p. apply mem_nIn in Ek, Ed. auto. }
+  (* 5. *args / too many positional arguments, 6. **kwargs *)
+  destruct (varargs s) as [va|] eqn:Eva.
+  - (* *args present *)
+    destruct (nd_va s W va Eva) as [HvaA HvaK].
+    destruct (kwargs s) as [kn|] eqn:Ekn.
+    + destruct (nd_kn s W kn Ekn) as [HknA [HknK Hknva]].
+      split.
+      { intros [H|[H|[H|[H|H]]]]; auto. destruct H as [_ H]. discriminate. }
+      intros p Hp. apply all_names_cases in Hp. rewrite Eva, Ekn in Hp.
+      destruct Hp as [Hp|[Hp|[Hp|Hp]]].
+      * destruct (In_A_indexed s p Hp) as [j [Hjp _]].
+        rewrite !dget_dset.
+        assert (p =? kn = false) as -> by (apply Nat.eqb_neq; intros ->; tauto).
+        assert (p =? va = false) as -> by (apply Nat.eqb_neq; intros ->; tauto).
+        rewrite (V1 j p Hjp). symmetry. apply ref_dict_pos; auto.
+      * rewrite !dget_dset.
+        assert (p =? kn = false) as -> by (apply Nat.eqb_neq; intros ->; tauto).
+        assert (p =? va = false) as -> by (apply Nat.eqb_neq; intros ->; tauto).
+        rewrite (V2 p Hp). symmetry. apply ref_dict_kwo; auto.
+      * inversion Hp; subst p. rewrite !dget_dset.
+        assert (va =? kn = false) as -> by (apply Nat.eqb_neq; intros ->; apply Hknva; rewrite Eva; reflexivity).
+        rewrite Nat.eqb_refl. rewrite (ref_dict_va s c va W Eva). unfold ref_star. rewrite skipn_seq'. reflexivity.
+      * inversion Hp; subst p. rewrite !dget_dset. rewrite Nat.eqb_refl.
+        rewrite (ref_dict_kn s c kn W Ekn). reflexivity.
+    + split.
+      { intros [H|[H|[H|[H|H]]]]; auto. destruct H as [_ H]. discriminate. }
+      intros p Hp. apply all_names_cases in Hp. rewrite Eva, Ekn in Hp.
+      destruct Hp as [Hp|[Hp|[Hp|Hp]]]; [| | |discriminate].
+      * destruct (In_A_indexed s p Hp) as [j [Hjp _]].
+        rewrite !dget_dset.
+        assert (p =? va = false) as -> by (apply Nat.eqb_neq; intros ->; tauto).
+        rewrite (V1 j p Hjp). symmetry. apply ref_dict_pos; auto.
+      * rewrite !dget_dset.
+        assert (p =? va = false) as -> by (apply Nat.eqb_neq; intros ->; tauto).
+        rewrite (V2 p Hp). symmetry. apply ref_dict_kwo; auto.
+      * inversion Hp; subst p. rewrite !dget_dset. rewrite Nat.eqb_refl.
+        rewrite (ref_dict_va s c va W Eva). unfold ref_star. rewrite skipn_seq'. reflexivity.
+  - (* no *args *)
+    destruct (length (param_names s) <? npos c) eqn:E5.
+    { right. right. left. apply Nat.ltb_lt in E5. auto. }
+    apply Nat.ltb_ge in E5.
+    destruct (kwargs s) as [kn|] eqn:Ekn.
+    + destruct (nd_kn s W kn Ekn) as [HknA [HknK Hknva]].
+      split.
+      { intros [H|[H|[H|[H|H]]]]; auto. destruct H as [H _]. lia. }
+      intros p Hp. apply all_names_cases in Hp. rewrite Eva, Ekn in Hp.
+      destruct Hp as [Hp|[Hp|[Hp|Hp]]]; [| |discriminate|].
+      * destruct (In_A_indexed s p Hp) as [j [Hjp _]].
+        rewrite !dget_dset.
+        assert (p =? kn = false) as -> by (apply Nat.eqb_neq; intros ->; tauto).
+        rewrite (V1 j p Hjp). symmetry. apply ref_dict_pos; auto.
+      * rewrite !dget_dset.
+        assert (p =? kn = false) as -> by (apply Nat.eqb_neq; intros ->; tauto).
+        rewrite (V2 p Hp). symmetry. apply ref_dict_kwo; auto.
+      * inversion Hp; subst p. rewrite !dget_dset. rewrite Nat.eqb_refl.
+        rewrite (ref_dict_kn s c kn W Ekn). reflexivity.
+    + split.
+      { intros [H|[H|[H|[H|H]]]]; auto. destruct H as [H _]. lia. }
+      intros p Hp. apply all_names_cases in Hp. rewrite Eva, Ekn in Hp.
+      destruct Hp as [Hp|[Hp|[Hp|Hp]]]; [| |discriminate|discriminate].
+      * destruct (In_A_indexed s p Hp) as [j [Hjp _]].
+        rewrite (V1 j p Hjp). symmetry. apply ref_dict_pos; auto.
+      * rewrite (V2 p Hp). symmetry. apply ref_dict_kwo; auto.
 Qed.
